@@ -78,7 +78,7 @@ def absFmtOp : P String := do
   | "and" => do let a ← pAbsFmt; let b ← pAbsFmt; pure (showAbsRes (.ok (a.inter b)))
   | "or" => do let a ← pAbsFmt; let b ← pAbsFmt; pure (showAbsRes (.ok (a.union b)))
   | "le" => do let a ← pAbsFmt; let b ← pAbsFmt; pure ("ok " ++ b01 (a.le b))
-  | "ler" => do let a ← pAbsFmt; let b ← pAbsFmt; pure ("ok " ++ b01 (a.leRepaired b))
+  | "lelegacy" => do let a ← pAbsFmt; let b ← pAbsFmt; pure ("ok " ++ b01 (a.leLegacy b))
   | "neg" => do let a ← pAbsFmt; pure (showAbsRes (.ok a.neg'))
   | "abs" => do let a ← pAbsFmt; pure (showAbsRes (.ok a.abs'))
   | "pos" => do let a ← pAbsFmt; pure (showAbsRes (.ok a.pos'))
